@@ -974,6 +974,27 @@ void
 alignZAxisWithTargetDir (Matrix44<T>& result, Vec3<T> targetDir, Vec3<T> upDir)
 {
     //
+    // Only the directions of targetDir and upDir matter.  Scale each of
+    // them by a power of two (an exact operation) so that its largest
+    // component lies in [0.5, 1): the cross products below multiply two
+    // and three operand magnitudes, and their lengths square that again,
+    // which overflows or underflows for operands that are themselves well
+    // inside the range of T (float: from about 3e6, and below 1e-15).
+    //
+
+    auto rescale = [] (Vec3<T>& v) {
+        T m = std::max (std::abs (v.x), std::max (std::abs (v.y), std::abs (v.z)));
+        if (m > 0 && m <= std::numeric_limits<T>::max ())
+        {
+            int e;
+            std::frexp (m, &e);
+            v = Vec3<T> (std::ldexp (v.x, -e), std::ldexp (v.y, -e), std::ldexp (v.z, -e));
+        }
+    };
+    rescale (targetDir);
+    rescale (upDir);
+
+    //
     // Ensure that the target direction is non-zero.
     //
 
